@@ -24,7 +24,13 @@ class TrieDict(object):
         self.__root = TrieDictNode()
 
     def __len__(self):
-        return self.__root.counter
+        root = self.__root
+
+        # The root's counter only counts items below it, not the empty prefix
+        if root.value is not NULL:
+            return root.counter + 1
+
+        return root.counter
 
     def __setitem__(self, prefix, value):
         node = self.__root
